@@ -16,7 +16,7 @@ RULE = ("histories of 1..12 calls on one ECDH object over a pool of 2..4 Curve o
         "two-party exchanges with boundary scalar pairs and pairs whose secret has leading zero bytes (searched on toy "
         "curves, fixed vectors re-verified on named curves); distinct = distinct history line; non-trivial = history "
         "contains at least one generate_sharedsecret(_bytes) call")
-EXTRA_PROPS = ["C05g", "C05b", "C05k", "C05x", "C05s"]   # C05s: the generated text of ecdh.py (gen_ecdh.py) is the model; C05x: end-to-end exchange theorem (unconditional on P-256, secp256k1, SECP112r2); C05k: LoadersValidate proved for the driver env from C08; C05b: secret_bytes with the number_to_string facts discharged; C05g: GroupReading discharged for Model/Curve.lean from C06/C07 (Proofs/GroupInterface.lean)
+EXTRA_PROPS = ["C05g", "C05b", "C05k", "C05x", "C05s", "C05t"]   # C05t: second translator tie (deep embedding, rand agent); C05s: the generated text of ecdh.py (gen_ecdhskel.py) is the model; C05x: end-to-end exchange theorem (unconditional on P-256, secp256k1, SECP112r2); C05k: LoadersValidate proved for the driver env from C08; C05b: secret_bytes with the number_to_string facts discharged; C05g: GroupReading discharged for Model/Curve.lean from C06/C07 (Proofs/GroupInterface.lean)
 ASSUMPTIONS = [
     "Curve/SigningKey/VerifyingKey objects are not mutated behind the ECDH object's back (C19 covers value stability)",
     "key constructors are parameters of Model/Ecdh.lean; the driver instantiates them with Model/Keys.lean (externals from "
